@@ -327,6 +327,10 @@ def ids_rules(ctx, W):
         ctx.check(len(sp) == 1 and len(ps) == 1 and T.access_path(pb, sp[0].args[1])[1] == 1 and T.access_path(pb, sp[0].args[0])[1] == 2, R + '/parse_id_tag/strips-then-parses', 'T-CARRY', pb.name, 'id is not parsed from the name after the prefix', pb.site())
 
 
+# the round trip reads the written text back through the MPS reader and converter
+RELIES_ON = {'C17': ['C17']}
+
+
 def check(ctx):
     W = writer_bodies(ctx)
     if len(W) < 8:
